@@ -41,6 +41,28 @@ let () = register "pdf" (fun args ->
 (* the probe is answered by the implementation only; the model echoes nothing useful *)
 let () = register "pdfdims" (fun _ -> "-")
 
+(* pdfdim <dataWords> <eccWords>: the modelled calcDimensions (model/Pdf417DimM.v) -> "cols rows".
+   Compared with the implementation INFORMATIONALLY only (lib/c04.py shape_choice): the
+   properties leave the shape free. *)
+let () = register "pdfdim" (fun args ->
+  match args with
+  | [m; k] ->
+    (match pdf_calc_dimensions_auto (z_of_string m) (z_of_string k) with
+     | Ok (c, r) -> Printf.sprintf "%d %d" (int_of_z c) (int_of_z r)
+     | Err -> "ERR" | Panic -> "PANIC" | OutOfFuel -> "OUTOFFUEL")
+  | _ -> "BAD")
+
+(* pdfauto <level> <hex>: the encoder with calcDimensions inside; "go" as third argument runs
+   pdf_encode_go (statement by statement) instead of pdf_encode_auto (the instance) *)
+let () = register "pdfauto" (fun args ->
+  match args with
+  | [level; hex] -> show_outcome show_barcode (pdf_encode_auto (zlist_of_hex hex) (z_of_string level))
+  | [level; hex; "go"] -> show_outcome show_barcode (pdf_encode_go (zlist_of_hex hex) (z_of_string level))
+  | _ -> "BAD")
+
+(* the float64-vs-exact enumeration is answered by the implementation harness only *)
+let () = register "pdfdimfloat" (fun _ -> "-")
+
 let () = register "pdfhl" (fun args ->
   match args with
   | [hex] -> pdf_show_ints (pdf_highlevel (zlist_of_hex hex))
